@@ -328,7 +328,7 @@ def run_followup(ctx, case):
 
     r1 = os.path.join(base, "rec")
     os.makedirs(r1)
-    rec = faultrun.run(setup, op, r1, include_reads=True)
+    rec = faultrun.run(setup, op, r1, include_reads=True, include_stats=True)
     if rec["outcome"] != "returned":
         raise RuntimeError(str(rec)[:500])
     r0 = os.path.join(base, "pre")
@@ -343,7 +343,7 @@ def run_followup(ctx, case):
     for j, plan in enumerate(plans):
         root = os.path.join(base, f"r{j}")
         os.makedirs(root)
-        res = faultrun.run(setup, op, root, plan=plan[:3], include_reads=True)
+        res = faultrun.run(setup, op, root, plan=plan[:3], include_reads=True, include_stats=True)
         if not res.get("fired") or not os.path.exists(root + ".followup.json"):
             shutil.rmtree(root, ignore_errors=True)
             continue
@@ -394,7 +394,7 @@ def run_case(ctx, case):
     faultrun.run(setup, noop, r0)
     pre = {p: job_dirs(os.path.join(r0, p)) for p in ("p1", "p2")}
     r1 = fresh_root("rec")
-    rec = faultrun.run(setup, op, r1, include_reads=True)
+    rec = faultrun.run(setup, op, r1, include_reads=True, include_stats=True)
     if rec["outcome"] == "harness-error":
         raise RuntimeError(rec["error"])
     post = {p: job_dirs(os.path.join(r1, p)) for p in ("p1", "p2")}
@@ -409,7 +409,7 @@ def run_case(ctx, case):
         e1 = faultrun.ERRNOS[case["double_all"]]
         for st in steps:
             r = fresh_root(f"d1_{st['k']}")
-            first = faultrun.run(setup, op, r, plan=("errs", [[st["k"], e1]]), include_reads=True)
+            first = faultrun.run(setup, op, r, plan=("errs", [[st["k"], e1]]), include_reads=True, include_stats=True)
             shutil.rmtree(r, ignore_errors=True)
             if not first.get("fired") or first["steps"] is None:
                 continue
@@ -437,7 +437,7 @@ def run_case(ctx, case):
     for j, plan in enumerate(plans):
         root = fresh_root(f"r{j}")
         if plan[0] == "errs2":
-            res = faultrun.run(setup, op, root, plan=("errs", [[plan[1], plan[2]], [plan[3], plan[4]]]), include_reads=True)
+            res = faultrun.run(setup, op, root, plan=("errs", [[plan[1], plan[2]], [plan[3], plan[4]]]), include_reads=True, include_stats=True)
             fired = res.get("nfired", 0) >= 2
             judged_plan = ("err", plan[1], plan[2], f"{plan[5]}@{plan[1]}+{plan[6]}@{plan[3]}")
         elif plan[0] == "err2":
@@ -445,7 +445,7 @@ def run_case(ctx, case):
             fired = res.get("fired")
             judged_plan = ("err", plan[1], plan[2], plan[5] + "+" + plan[6])
         else:
-            res = faultrun.run(setup, op, root, plan=plan[:3], include_reads=True)
+            res = faultrun.run(setup, op, root, plan=plan[:3], include_reads=True, include_stats=True)
             fired = res["outcome"] == "crashed" if plan[0] != "err" else res.get("fired")
             judged_plan = plan
         if res["outcome"] == "harness-error":
@@ -488,6 +488,6 @@ def run_double(setup, op, root, plan):
 
     faultrun.Controller._maybe_fault = patched
     try:
-        return faultrun.run(setup, op, root, plan=("double", -1), include_reads=True)
+        return faultrun.run(setup, op, root, plan=("double", -1), include_reads=True, include_stats=True)
     finally:
         faultrun.Controller._maybe_fault = orig
